@@ -75,6 +75,9 @@ func Create(config *Config) func(db *gorm.DB) {
 
 		ok, mode := hasReturning(db, supportReturning)
 		if ok {
+			// the returned rows belong to the records being created: fill those, also
+			// for a bare RETURNING (all columns), instead of replacing the caller's slice
+			mode |= gorm.ScanUpdate
 			if c, ok := db.Statement.Clauses["ON CONFLICT"]; ok {
 				if onConflict, _ := c.Expression.(clause.OnConflict); onConflict.DoNothing {
 					mode |= gorm.ScanOnConflictDoNothing
